@@ -313,7 +313,7 @@ pub struct Style {
     pub nu: bool,     // ν-prefixed literals
     pub var: u8,      // 0: $a/$b, 1: $ν1/$ν2
     pub hex: u8,      // 0 upper, 1 lower with dashes, 2 mixed with inner blanks, 3 wrapped over lines (tab, LF, CRLF inside the literal)
-    pub comments: u8, // 0 none, 1 between commands, 2 also at the top, with ; ( # inside
+    pub comments: u8, // 0 none, 1 between commands, 2 also at the top, with ; ( # inside, 3 also after the last command
     pub empties: bool,
     pub final_semi: bool,
 }
@@ -325,7 +325,7 @@ pub fn all_styles() -> Vec<Style> {
             for nu in [false, true] {
                 for var in 0..2 {
                     for hex in 0..4 {
-                        for comments in 0..3 {
+                        for comments in 0..4 {
                             for empties in [false, true] {
                                 for final_semi in [false, true] {
                                     v.push(Style { ws, name_sp, nu, var, hex, comments, empties, final_semi });
@@ -352,6 +352,7 @@ pub fn menu_styles() -> Vec<Style> {
         Style { hex: 3, ..base },
         Style { comments: 1, ..base },
         Style { comments: 2, ws: 2, ..base },
+        Style { comments: 3, ..base },
         Style { empties: true, final_semi: false, ..base },
         Style { ws: 2, name_sp: 1, nu: true, var: 1, hex: 2, comments: 2, empties: true, final_semi: false },
         Style { final_semi: false, ..base },
@@ -392,7 +393,7 @@ pub fn render(p: &[PCmd], s: &Style) -> String {
     };
     let sp = " ".repeat(s.name_sp as usize);
     let mut out = String::new();
-    if s.comments == 2 {
+    if s.comments >= 2 {
         out.push_str("# top; comment with (parens) and a # inside\n");
     }
     for (i, c) in p.iter().enumerate() {
@@ -411,6 +412,13 @@ pub fn render(p: &[PCmd], s: &Style) -> String {
         }
         if s.comments >= 1 && !last {
             out.push_str(" # then; the next (one)\n");
+        }
+        if s.comments == 3 && last {
+            // a comment on the last line needs a final semicolon before it (else it belongs to the command)
+            if !s.final_semi {
+                out.push(';');
+            }
+            out.push_str(" # done; that (was) all\n");
         }
     }
     out
@@ -565,6 +573,16 @@ pub fn run_c14(tier: &str) -> Outcome {
         acc.bump("programs_on_sodg1", 1);
     });
     acc.merge(n1acc);
+    // scripts with zero commands: nothing happens, the count is 0
+    for text in ["", " ", "\n", ";", ";;", "# only a comment\n", " # c1\n# c2; with (stuff)\n ; \n"] {
+        acc.evaluations += 1;
+        acc.nontrivial += 1;
+        let mut g: Sodg<3> = Sodg::empty(CAP);
+        let r = guarded(|| Script::from_str(text).deploy_to(&mut g).map_err(|e| format!("{e:#}")));
+        if r != Ok(Ok(0)) || g.verif_snapshot() != Sodg::<3>::empty(CAP).verif_snapshot() {
+            acc.fail("C14", "script:empty-program", format!("the script {text:?} has no commands: it must return Ok(0) and change nothing, but gives {r:?}"), json!({"engine": "proggen", "property": "C14", "text": text}));
+        }
+    }
     // single-fault corruption
     let fault_progs: Vec<Vec<PCmd>> = {
         let mut v = vec![];
@@ -599,7 +617,7 @@ pub fn run_c14(tier: &str) -> Outcome {
         acc.failures.retain(|f| !f.signature.starts_with("machinery:"));
     }
     let rule = format!(
-        "PROGGEN: every program of <= {maxlen} ADD/BIND/PUT commands over ids {{0,1,2,$a,$b}}, labels {{foo, α1, x}} (and the single non-ASCII letter ρ in programs of <= 3 commands), data {{1, 8, 9 bytes}} (and of {rl_from}..={rl_to} commands over {{0,$a}}) whose direct execution respects the graph preconditions; each rendered with a menu of 13 legal formattings, programs of <= 2 commands with the full product of 1728 (whitespace, spaces before the parenthesis, ν-prefixes, $ν1-style names, hex case/dashes/blanks/line breaks inside the literal, comments containing ; ( #, empty commands, final semicolon); the programs over a reduced alphabet also on Sodg<1>; oracle: complete internal state after deploy_to == state after the same calls made directly, count == number of commands. PLUS every single-character deletion/replacement/insertion ({} fault characters) at every position of every program of <= {} commands over a reduced alphabet in two renderings, judged by a conservative reference parser: well-formed -> equals its own direct calls; definitely malformed at command i -> Err, no panic, graph == commands 0..i; grey -> no demand. distinct_nontrivial = texts with a settled class",
+        "PROGGEN: every program of <= {maxlen} ADD/BIND/PUT commands over ids {{0,1,2,$a,$b}}, labels {{foo, α1, x}} (and the single non-ASCII letter ρ in programs of <= 3 commands), data {{1, 8, 9 bytes}} (and of {rl_from}..={rl_to} commands over {{0,$a}}) whose direct execution respects the graph preconditions; each rendered with a menu of 14 legal formattings, programs of <= 2 commands with the full product of 2304 (whitespace, spaces before the parenthesis, ν-prefixes, $ν1-style names, hex case/dashes/blanks/line breaks inside the literal, comments containing ; ( #, empty commands, final semicolon); the programs over a reduced alphabet also on Sodg<1>; oracle: complete internal state after deploy_to == state after the same calls made directly, count == number of commands. PLUS every single-character deletion/replacement/insertion ({} fault characters) at every position of every program of <= {} commands over a reduced alphabet in two renderings, judged by a conservative reference parser: well-formed -> equals its own direct calls; definitely malformed at command i -> Err, no panic, graph == commands 0..i; grey -> no demand. distinct_nontrivial = texts with a settled class",
         FAULTS.len(),
         if quick { 2 } else { 4 }
     );
